@@ -93,6 +93,7 @@ type DataObject struct {
 	ID   string `json:"id"`
 	Name string `json:"name"`
 	Body string `json:"body,omitempty"` // JSON
+	Prop bool   `json:"prop,omitempty"` // a bpmn:property of the process instead of a data object
 }
 
 // Graph is a whole process (sub-process contents are flattened in with Scope set).
@@ -281,6 +282,10 @@ func XML(graphs []*Graph, exec []bool, extra string) string {
 		fmt.Fprintf(&b, `  <bpmn:process id="%s" isExecutable="%v">`+"\n", g.ProcID, ex)
 		g.renderScope(&b, "", "    ")
 		for _, o := range g.Objects {
+			if o.Prop {
+				fmt.Fprintf(&b, `    <bpmn:property id="%s" name="%s"/>`+"\n", o.ID, o.Name)
+				continue
+			}
 			if o.Body != "" {
 				fmt.Fprintf(&b, `    <bpmn:dataObject id="%s" name="%s"><bpmn:extensionElements><olive:dataObjectBody><![CDATA[%s]]></olive:dataObjectBody></bpmn:extensionElements></bpmn:dataObject>`+"\n", o.ID, o.Name, o.Body)
 			} else {
@@ -364,11 +369,20 @@ func (g *Graph) renderScope(b *strings.Builder, scope, ind string) {
 					}
 					fmt.Fprintf(b, "%s    </olive:results>\n", ind)
 				}
+				// "name" (the target has the same id) or "name=targetId"
 				for _, o := range n.Inputs {
-					fmt.Fprintf(b, `%s    <olive:dataInput name="%s" targetRef="%s"/>`+"\n", ind, o, o)
+					name, target, ok := strings.Cut(o, "=")
+					if !ok {
+						target = name
+					}
+					fmt.Fprintf(b, `%s    <olive:dataInput name="%s" targetRef="%s"/>`+"\n", ind, name, target)
 				}
 				for _, o := range n.Outputs {
-					fmt.Fprintf(b, `%s    <olive:dataOutput name="%s" targetRef="%s"/>`+"\n", ind, o, o)
+					name, target, ok := strings.Cut(o, "=")
+					if !ok {
+						target = name
+					}
+					fmt.Fprintf(b, `%s    <olive:dataOutput name="%s" targetRef="%s"/>`+"\n", ind, name, target)
 				}
 				fmt.Fprintf(b, "%s  </bpmn:extensionElements>\n", ind)
 			}
